@@ -262,6 +262,17 @@ def keepSet : List MaybeResp → List Response
   | .unset :: xs => keepSet xs
   | .set r :: xs => r :: keepSet xs
 
+/-- dispatcher.py:457-462: the batch response built from the responses that are not UNSET.
+Nothing to send when there is none (D2); the strict `BatchResponse` constructor may raise
+`IdentityError` on duplicate response ids. -/
+def assembleBatch (rs : List Response) : DispatchResult :=
+  match rs with
+  | [] => .nothing
+  | rs =>
+    match BatchResponse.construct rs with
+    | .raised e => .raised e
+    | .ok b => .reply b.toJson (rs.map Response.code)
+
 /-- `max_batch_size and len(request) > max_batch_size` -/
 def tooLarge (maxBatch : Option Int) (n : Nat) : Bool :=
   match maxBatch with
@@ -283,12 +294,7 @@ def dispatch (cfg : Config) (lr : LoadResult) (ctx : String) : DispatchResult ×
           (replySingle ⟨none, .unset, .set (invalidRequestWith (.set (.str "batch too large")))⟩, [])
         else
           let (results, ev) := runBatch cfg.handler ctx batch.requests
-          match keepSet results with
-          | [] => (.nothing, ev)                                -- D2: nothing to send
-          | rs =>
-            match BatchResponse.construct rs with
-            | .raised e => (.raised e, ev)                      -- strict duplicate-id check of the response batch
-            | .ok b => (.reply b.toJson (rs.map Response.code), ev)
+          (assembleBatch (keepSet results), ev)
     else
       match Request.fromJson j with
       | .raised _ => (replySingle ⟨none, .unset, .set (invalidRequestWith (.set freeText))⟩, [])
